@@ -53,10 +53,13 @@ class Gen:
             outs = [d + "x%d.o" % i]
             iouts = []
             if self.p("multi"):
+                # secondary outputs also in (nested) directories of their own, below the first output's directory:
+                # each output's directory has to be made, not only the first one's
+                sub = r.choice(("", "", "", "m%d/" % i, "m%d/deep/er/" % i))
                 if r.random() < 0.5:
-                    outs.append(d + "x%d.map" % i)
+                    outs.append(d + sub + "x%d.map" % i)
                 else:
-                    iouts.append(d + "x%d.lst" % i)
+                    iouts.append(d + sub + "x%d.lst" % i)
             st = St(sid_, outs, iouts=iouts)
             # primary source of its own (so that edits are local), plus earlier outputs
             src = "c%d.c" % nsrc
